@@ -206,7 +206,7 @@ def c14_case(draw):
              kdurs=[1, 2, 4, 7, 12, 20], memcpy_names=[n for n in vocab.MEMCPY_KERNELS if "HtoD" in n] + vocab.MEMCPY_KERNELS[:1])
     case = draw(sim_case(o, max_ranks=2))
     all_ranks = [r["rank"] for r in case["ranks"]]
-    mode = draw(st.sampled_from(["none", "empty", "subset", "all", "all"]))
+    mode = draw(st.sampled_from(["none", "empty", "subset", "all", "all"] if 0 in all_ranks else ["all", "subset", "all"]))  # None / [] mean rank 0
     ranks = None if mode == "none" else [] if mode == "empty" else list(all_ranks) if mode == "all" else \
         list(draw(st.permutations(all_ranks)))[:1]
     case["params"] = {"ranks": ranks, "series": draw(st.sampled_from(["both", "both", "queue", "bw"])),
@@ -223,6 +223,6 @@ def view(case):
 
 def campaigns(tier: str) -> List[Campaign]:
     return [Campaign("counters", c14_case(), check, quick=400, thorough=20000, quick_shards=8,
-                     required_classes={"launch_and_start_same_instant": 0.15, "multi_stream": 0.2, "zero_length_copy": 0.03,
+                     required_classes={"launch_and_start_same_instant": 0.15, "multi_stream": 0.18, "zero_length_copy": 0.03,
                                        "counter_file": 0.5, "shared_instant": 0.3, "multi_copy_type": 0.05},
                      sample_view=view)]
